@@ -196,6 +196,9 @@ func init() {
 		return nil
 	})
 	reg(vxPkg+"Distinct", nop)
+	reg(vxPkg+"B2U", func(in *Interp, c *Frame, fn *ssa.Function, a []Value) Value {
+		return in.st.Ite(a[0].(*Term), in.st.Const(64, 1), in.st.Const(64, 0))
+	})
 	reg(vxPkg+"String", func(in *Interp, c *Frame, fn *ssa.Function, a []Value) Value {
 		name := in.concreteStr(a[0])
 		n := in.concreteInt(a[1], "vx.String length")
